@@ -30,13 +30,19 @@ static void script(void) {
   else check(c, 5, 7, "first", C18_FAILED_SINCE(f0) || p_error_get_message(e) == NULL);
   if (e != NULL) check(e, 5, 7, "first", 1);                /* source untouched by the copy */
 
-  f0 = vm_failed;
-  p_error_set_error(e, 6, 8, "second");
-  if (e != NULL) check(e, 6, 8, "second", C18_FAILED_SINCE(f0));
-
-  f0 = vm_failed;
-  p_error_set_message(c, "third");
-  if (c != NULL) check(c, 5, 7, "third", C18_FAILED_SINCE(f0));
+  int retried_ok = 0;
+  for (int attempt = 0; attempt < 2; attempt++) {      /* a setter whose message copy failed is retried once: result as without the failure */
+    f0 = vm_failed;
+    p_error_set_error(e, 6, 8, "second");
+    if (e != NULL) check(e, 6, 8, "second", C18_FAILED_SINCE(f0));
+    if (!C18_FAILED_SINCE(f0)) { if (attempt == 1 && e != NULL) retried_ok = 1; break; }
+  }
+  for (int attempt = 0; attempt < 2; attempt++) {
+    f0 = vm_failed;
+    p_error_set_message(c, "third");
+    if (c != NULL) check(c, 5, 7, "third", C18_FAILED_SINCE(f0));
+    if (!C18_FAILED_SINCE(f0)) { if (attempt == 1 && c != NULL) retried_ok = 1; break; }
+  }
 
   PError *p = NULL;
   f0 = vm_failed; live0 = vm_live;
@@ -51,4 +57,9 @@ static void script(void) {
   if (e != NULL) VASSERT(p_error_get_message(e) == NULL && p_error_get_code(e) == 0, "clear resets");
   p_error_free(e); p_error_free(c); p_error_free(p);
   c18_end(8);
+#ifndef NOFAIL
+  if (retried_ok) VWITNESS("a setter failed once and delivered the new text when retried");
+#else
+  (void) retried_ok;
+#endif
 }
